@@ -1,6 +1,7 @@
 //! Correspondence harness: drives the real quinn components through `quinn_proto::verif::Exec`
 //! (in-process), records the request lines and the implementation's responses, and applies the
 //! property oracles directly to the implementation's outputs.
+pub mod frames;
 pub mod gen;
 pub mod scenarios;
 pub mod sim;
